@@ -216,7 +216,11 @@ where
             let genfrac = v.get("genfrac").and_then(|x| x.as_u64()).unwrap_or(0);
             let verfrac = v.get("verfrac").and_then(|x| x.as_u64()).unwrap_or(0);
             blsful::verif_hooks::set_virtual_now_us(Some(BASE_MS * 1000 + genfrac));
+            // the prover's clock moves on by a millisecond with every reading: the stamp and the instant bound into
+            // the challenge are one reading, so nothing changes for a function that reads the clock once
+            blsful::verif_hooks::set_virtual_tick_us(1000);
             let gen = ProofOfKnowledgeTimestamp::<C>::generate(&msg, sig);
+            blsful::verif_hooks::set_virtual_tick_us(0);
             let mut p = match gen {
                 Ok(p) => p,
                 Err(e) => {
